@@ -607,9 +607,14 @@ impl<'a> Compiler<'a> {
                 // (the jumps belong to this card, only the body is compiled as child 1)
                 self.encode_if_then(Instruction::GotoIfFalse, |c| {
                     // if true execute body and jump to block_begin
+                    // the body is a scope of its own (like the bodies of Repeat and ForEach): a local
+                    // first assigned in it must not keep a slot that is never created when the body
+                    // does not run
+                    c.scope_begin();
                     c.current_index.push_subindex(1);
                     c.process_card(body)?;
                     c.current_index.pop_subindex();
+                    c.scope_end();
                     c.push_instruction(Instruction::Goto);
                     write_to_vec(block_begin, &mut c.program.bytecode);
                     Ok(())
@@ -723,18 +728,22 @@ impl<'a> Compiler<'a> {
 
                 let mut idx = 0;
                 self.encode_if_then(Instruction::GotoIfFalse, |c| {
+                    c.scope_begin();
                     c.current_index.push_subindex(1);
                     c.process_card(then_card)?;
                     c.current_index.pop_subindex();
+                    c.scope_end();
                     // jump over the `else` branch
                     c.push_instruction(Instruction::Goto);
                     idx = c.program.bytecode.len();
                     write_to_vec(0xEEFi32, &mut c.program.bytecode);
                     Ok(())
                 })?;
+                self.scope_begin();
                 self.current_index.push_subindex(2);
                 self.process_card(else_card)?;
                 self.current_index.pop_subindex();
+                self.scope_end();
                 unsafe {
                     let ptr = self.program.bytecode.as_mut_ptr().add(idx) as *mut i32;
                     std::ptr::write_unaligned(ptr, self.program.bytecode.len() as i32);
@@ -744,9 +753,11 @@ impl<'a> Compiler<'a> {
                 let [cond, body] = &**jmp;
                 self.compile_subexpr(slice::from_ref(cond))?;
                 self.encode_if_then(Instruction::GotoIfTrue, |c| {
+                    c.scope_begin();
                     c.current_index.push_subindex(1);
                     c.process_card(body)?;
                     c.current_index.pop_subindex();
+                    c.scope_end();
                     Ok(())
                 })?;
             }
@@ -754,9 +765,11 @@ impl<'a> Compiler<'a> {
                 let [cond, body] = &**jmp;
                 self.compile_subexpr(slice::from_ref(cond))?;
                 self.encode_if_then(Instruction::GotoIfFalse, |c| {
+                    c.scope_begin();
                     c.current_index.push_subindex(1);
                     c.process_card(body)?;
                     c.current_index.pop_subindex();
+                    c.scope_end();
                     Ok(())
                 })?;
             }
